@@ -42,6 +42,7 @@ func runC12(rc *RC) {
 	}
 	w := ingest.NewMutableOverlayWorld(bw)
 	name := "C12/overlay over " + baseKindNames[bk]
+	rc.Phase(name)
 	ids := universe()
 	steps := rc.Range(1, 40)
 	snapAt := map[int]bool{}
@@ -57,7 +58,7 @@ func runC12(rc *RC) {
 		got := Observe(w, ids, obsOpts{sections: sections})
 		// enumeration under the scheduler (EachFeature starts goroutines)
 		var each string
-		rc.Sim(name, false, nil, 0, func() { each = safe(func() string { return eachTags(w, eachG) }) })
+		rc.Sim(name, func() { each = safe(func() string { return eachTags(w, eachG) }) })
 		if rc.Failed() {
 			return false
 		}
@@ -131,9 +132,5 @@ func runC12(rc *RC) {
 			return
 		}
 	}
-	if steps >= 3 && len(touched) >= 2 {
-		rc.Rec.Nontrivial = true
-	} else {
-		rc.Rec.Nontrivial = false
-	}
+	rc.SetNontrivial(steps >= 3 && len(touched) >= 2)
 }
